@@ -138,6 +138,29 @@ def run(chk):
                     unit = int(f.split(":")[1]) if ":" in f else 8
                     spans = gen_blocks(rng, n, unit)
                 cases.append((f, bits, spans))
+    # ---- Intel HEX beyond 64 KiB of addresses (finding F72, repaired: the upper address bits were dropped): a few long outputs,
+    # mostly gaps, with blocks before, across and after the boundary
+    for f, unit in [("intelhex", 8)] * (6 if thorough else 3) + [("intelhex,addr_unit:16", 16)] * (2 if thorough else 1):
+        edge = 65536 * unit
+        n = edge + unit * rng.randrange(8, 200)
+        blocks = [(unit * rng.randrange(0, 4), 8 * rng.randrange(1, 40)),
+                  (edge - 8 * rng.randrange(1, 30) - (0 if rng.random() < 0.5 else unit * 64), 8 * rng.randrange(2, 70)),
+                  (edge + unit * rng.randrange(0, 3), 8 * rng.randrange(1, 8))]
+        spans, lastend = [], 0
+        for o, sz in blocks:
+            o -= o % unit
+            if o < lastend + unit:
+                continue
+            sz = min(sz, n - o)
+            sz -= sz % 8
+            if sz > 0:
+                spans.append((o, sz))
+                lastend = o + sz
+        ones = set()
+        for o, sz in spans:
+            ones.update(i for i in range(o, o + sz) if rng.random() < 0.5)
+        bits = "".join("1" if i in ones else "0" for i in range(n))
+        cases.append((f, bits, spans))
     ops = []
     for f, bits, spans in cases:
         sp = ",".join("%s:%d" % (o, s) for o, s in spans) or "-"
@@ -170,7 +193,7 @@ def run(chk):
                             raise decoders.DecodeError("two records cover byte %d" % (base + i))
                         mem[base + i] = b
                 exp = expected_ihex_memory(bits, spans, unit)
-                if all(o == "n" or (o // unit) < 65536 for o, s in spans) and mem != exp:
+                if all(o == "n" or (o // unit) < 2 ** 32 for o, s in spans) and mem != exp:
                     raise decoders.DecodeError("memory image differs")
             else:
                 got = decode(f, data)
